@@ -245,7 +245,7 @@ class PDFXRefFallback(PDFXRef):
             if isinstance(obj, PDFStream) and obj.get("Type") is LITERAL_OBJSTM:
                 stream = stream_value(obj)
                 try:
-                    n = stream["N"]
+                    n = int_value(stream["N"])
                 except KeyError:
                     if settings.STRICT:
                         raise PDFSyntaxError("N is not defined: %r" % stream)
@@ -261,7 +261,8 @@ class PDFXRefFallback(PDFXRef):
                 n = min(n, len(objs) // 2)
                 for index in range(n):
                     objid1 = objs[index * 2]
-                    self.offsets[objid1] = (objid, index, 0)
+                    if isinstance(objid1, int):
+                        self.offsets[objid1] = (objid, index, 0)
 
 
 class PDFXRefStream(PDFBaseXRef):
@@ -856,7 +857,7 @@ class PDFDocument:
             if settings.STRICT:
                 raise PDFSyntaxError("Not a stream object: %r" % stream)
         try:
-            n = cast(int, stream["N"])
+            n = int_value(stream["N"])
         except KeyError:
             if settings.STRICT:
                 raise PDFSyntaxError("N is not defined: %r" % stream)
